@@ -118,6 +118,24 @@ type sess struct {
 	dead   bool
 	full   bool // every event also carries the complete contents ("all")
 	sig    []string
+	// retained results / arguments (held.go)
+	keeps bool       // the caller retains what calls hand out / are handed
+	kr    *rand.Rand // decides the slot
+	watch int        // every event also reads ALL retained things again while they hold <= watch elements
+	held  []*thing
+}
+
+// keepWith: from now on the caller retains arrays, index slices and lists
+func (s *sess) keepWith(r *rand.Rand, watch int) { s.keeps, s.kr, s.watch = true, r, watch }
+
+func (s *sess) heldElems() int {
+	n := 0
+	for _, h := range s.held {
+		if m := h.length(); m > 0 {
+			n += m
+		}
+	}
+	return n
 }
 
 var ctors = []struct {
@@ -145,6 +163,9 @@ func (s *sess) emit(name string, ev core.Ev) {
 		if core.Guard(func() { a = s.l.toArray() }) == "" {
 			ev["all"] = encAll(s.l.k, a)
 		}
+	}
+	if s.keeps && name != "Panic" && s.heldElems() <= s.watch {
+		ev["held"] = s.heldAll()
 	}
 	s.t.Emit(ev)
 	s.events++
@@ -187,7 +208,9 @@ func (s *sess) addAll(r *rand.Rand, vs []val) {
 		return
 	}
 	if s.run("AddAll", func() { s.l.addAll(o) }) {
-		s.emit("AddAll", core.Ev{"vs": encAll(s.l.k, vs), "self": false, "octor": c.name})
+		ev := core.Ev{"vs": encAll(s.l.k, vs), "self": false, "octor": c.name}
+		s.install(s.slot(s.kr), &thing{what: "list", k: s.l.k, lst: o}, ev) // the argument list stays with the caller
+		s.emit("AddAll", ev)
 	}
 }
 
@@ -203,8 +226,11 @@ func (s *sess) addAllSelf() {
 }
 
 func (s *sess) addAllArray(vs []val) {
-	if s.run("AddAllArray", func() { s.l.addAllArray(vs) }) {
-		s.emit("AddAllArray", core.Ev{"vs": encAll(s.l.k, vs)})
+	raw := rawOf(s.l.k, vs)
+	if s.run("AddAllArray", func() { s.l.addAllRaw(raw) }) {
+		ev := core.Ev{"vs": encAll(s.l.k, vs)}
+		s.install(s.slot(s.kr), &thing{what: "arr", k: s.l.k, raw: raw}, ev) // the argument array stays with the caller
+		s.emit("AddAllArray", ev)
 	}
 }
 
@@ -245,9 +271,13 @@ func (s *sess) getVia(via string, i int) {
 }
 
 func (s *sess) toArray(name string) {
-	var a []val
-	if s.run(name, func() { a = s.l.toArray() }) {
-		s.emit(name, core.Ev{"arr": encAll(s.l.k, a)})
+	var raw interface{}
+	if s.run(name, func() { raw = s.l.rawArray() }) {
+		ev := core.Ev{"arr": encAll(s.l.k, rawVals(raw))}
+		if name == "ToArray" {
+			s.install(s.slot(s.kr), &thing{what: "arr", k: s.l.k, raw: raw}, ev) // the very slice that was returned
+		}
+		s.emit(name, ev)
 	}
 }
 
@@ -262,6 +292,7 @@ func (s *sess) sizeEv() {
 func (s *sess) write(r *rand.Rand) {
 	var b []byte
 	var back []val
+	var f *tl
 	c := ctors[r.Intn(len(ctors))]
 	ok := s.run("Write", func() {
 		out := gio.NewDataOutputX()
@@ -272,12 +303,14 @@ func (s *sess) write(r *rand.Rand) {
 		return
 	}
 	ok = s.run("Read", func() {
-		f := newList(s.l.k, c.name, c.capa)
+		f = newList(s.l.k, c.name, c.capa)
 		f.any.Read(gio.NewDataInputX(b))
 		back = f.toArray()
 	})
 	if ok {
-		s.emit("Write", core.Ev{"bytes": core.Cp(b), "back": encAll(s.l.k, back), "rctor": c.name})
+		ev := core.Ev{"bytes": core.Cp(b), "back": encAll(s.l.k, back), "rctor": c.name}
+		s.install(s.slot(s.kr), &thing{what: "list", k: s.l.k, lst: f}, ev) // the list that was read back
+		s.emit("Write", ev)
 	}
 }
 
@@ -313,8 +346,11 @@ func (s *sess) sortEv(asc bool, child *tl, casc bool) []int {
 		return nil
 	}
 	ev["perm"] = nz(perm)
+	if perm != nil {
+		s.install(s.slot(s.kr), &thing{what: "perm", raw: perm}, ev) // the very index slice that was returned
+	}
 	s.emit("Sort", ev)
-	return perm
+	return append([]int(nil), perm...)
 }
 
 func (s *sess) filter(idx []int) {
@@ -334,6 +370,7 @@ func (s *sess) filter(idx []int) {
 			}
 			ev["ret"] = [][]core.Bytes{encAll(s.l.k, a)}
 			ev["osize"] = out.Size()
+			s.install(s.slot(s.kr), &thing{what: "list", k: w.k, lst: w}, ev) // the list that was returned
 		}
 	}
 	s.emit("Filter", ev)
@@ -437,6 +474,7 @@ func randomHistory(c *core.Ctx, t *core.Trace, gen string, cas int, k kind, nops
 		prof = "smallint"
 	}
 	s := start(t, gen, cas, k, ct.name, ct.capa, core.Ev{"profile": prof})
+	s.keepWith(r, 48)
 	var p []val
 	if smallInts {
 		p = make([]val, 2+r.Intn(8))
@@ -473,13 +511,15 @@ func randomHistory(c *core.Ctx, t *core.Trace, gen string, cas int, k kind, nops
 			} else {
 				s.set(randIndex(r, size, ct.capa), p[r.Intn(len(p))])
 			}
-		case x < 77:
+		case x < 70:
 			if smallInts && r.Intn(2) == 0 {
 				v := getVias(k)
 				s.getVia(v[r.Intn(len(v))], randIndex(r, size, ct.capa))
 			} else {
 				s.get(randIndex(r, size, ct.capa))
 			}
+		case x < 76:
+			s.poke(r, p, true)
 		case x < 80:
 			s.toArray("ToArray")
 		case x < 82:
@@ -497,10 +537,12 @@ func randomHistory(c *core.Ctx, t *core.Trace, gen string, cas int, k kind, nops
 		}
 		if i%16 == 15 && !s.dead {
 			s.toArray("Proj")
+			s.heldEvAll()
 		}
 	}
 	if !s.dead {
 		s.toArray("Proj")
+		s.heldEvAll()
 	}
 	return s
 }
@@ -510,10 +552,19 @@ func randomHistory(c *core.Ctx, t *core.Trace, gen string, cas int, k kind, nops
 func growHistory(c *core.Ctx, t *core.Trace, gen string, cas int, k kind, ctor string, capa int, n int) *sess {
 	r := c.Rng(gen, cas)
 	s := start(t, gen, cas, k, ctor, capa, core.Ev{"profile": "grow"})
+	s.keepWith(r, 0)
 	p := pool(r, k, 2+r.Intn(6))
 	for i := 0; i < n && !s.dead; i++ {
 		s.add(p[r.Intn(len(p))])
 		size := s.l.size()
+		if i < 70 || r.Intn(16) == 0 { // the array handed out at this size, kept across the next calls
+			switch r.Intn(6) {
+			case 0:
+				s.toArray("ToArray")
+			case 1:
+				s.poke(r, p, false)
+			}
+		}
 		s.get(size)
 		switch r.Intn(4) {
 		case 0:
@@ -525,11 +576,13 @@ func growHistory(c *core.Ctx, t *core.Trace, gen string, cas int, k kind, ctor s
 		}
 		if i%64 == 63 && !s.dead {
 			s.toArray("Proj")
+			s.heldEvAll()
 		}
 	}
 	if !s.dead {
 		s.toArray("Proj")
 		s.write(r)
+		s.heldEvAll()
 	}
 	return s
 }
@@ -542,6 +595,7 @@ func sortHistory(c *core.Ctx, t *core.Trace, gen string, cas int, k kind, n, dup
 	r := c.Rng(gen, cas)
 	ct := ctors[r.Intn(len(ctors))]
 	s := start(t, gen, cas, k, ct.name, ct.capa, core.Ev{"profile": "sort", "n": n, "dup": dup})
+	s.keepWith(r, 0) // the index slices and filtered lists stay with the caller, read again at the end
 	p := pool(r, k, dup)
 	vs := draw(r, p, n)
 	switch r.Intn(3) {
@@ -590,6 +644,11 @@ func sortHistory(c *core.Ctx, t *core.Trace, gen string, cas int, k kind, n, dup
 	for i := 0; i < 3 && !s.dead; i++ {
 		s.filter(randIdxList(r, n, i == 2))
 	}
+	if !s.dead && n > 0 {
+		s.set(r.Intn(n), p[r.Intn(len(p))])
+		s.poke(r, p, false)
+	}
+	s.heldEvAll()
 	return s
 }
 
@@ -607,13 +666,14 @@ func sortVals(k kind, vs []val, asc bool) {
 }
 
 func Run(c *core.Ctx) error {
-	c.Rule = "C13: random call histories on each of the five typed lists (every Add*/Set*/Get*, AddAll, AddAllArray, ToArray, Size, Write+Read, Sorting, SortingAnyList, Filtering; seven constructor shapes; extreme / duplicate / NaN-free / empty-string element pools), one-by-one growth histories probing the first slot beyond size, sort histories of 0..2000 elements with heavy duplication sorted both ways alone and with children of every kind in all four direction combinations, random LinkedList histories, plus every transition of the complete small-scope state graphs of the model (typed and linked, dumped by TLC) replayed on every real type; a history is non-trivial if it recorded more than 3 events; distinct by kind, constructor, profile and first 12 calls"
+	c.Rule = "C13: random call histories on each of the five typed lists (every Add*/Set*/Get*, AddAll, AddAllArray, ToArray, Size, Write+Read, Sorting, SortingAnyList, Filtering; seven constructor shapes; extreme / duplicate / NaN-free / empty-string element pools), one-by-one growth histories probing the first slot beyond size, sort histories of 0..2000 elements with heavy duplication sorted both ways alone and with children of every kind in all four direction combinations, aliasing histories (each typed list filled exactly to / short of / beyond its capacity by every constructor and growth path, or obtained from Filtering / Read / as the AddAll argument; the caller keeps every returned or passed array, index slice and list, writes into them and reads them again after every call), random LinkedList histories, plus every transition of the complete small-scope state graphs of the model (typed and linked, dumped by TLC) replayed on every real type; a history is non-trivial if it recorded more than 3 events; distinct by kind, constructor, profile and first 12 calls"
 	t := c.Trace("c13_lists", "Trace_TypedList")
 
 	// ---- gen "self": one fixed straight-line history (binding self-test) ----
 	if c.Want("self", 0) {
 		r := c.Rng("self", 0)
 		s := start(t, "self", 0, kLong, "cap", 2, core.Ev{"profile": "self"})
+		s.keepWith(r, 100)
 		s.add(val{i: 5})
 		s.add(val{i: -7})
 		s.add(val{i: 5})
@@ -702,6 +762,33 @@ func Run(c *core.Ctx) error {
 			dup := []int{2, 3, 7, 40, 2500}[(i/5+i)%5]
 			s := sortHistory(c, tb, "sort", cas, k, 2000, dup, []kind{allKinds[r.Intn(5)]})
 			c.Count(fmt.Sprintf("bigsort|%s|%d", k, dup), s.events > 3)
+		}
+	}
+
+	// ---- gen "alias": what the list hands out / is handed stays apart from it ----
+	if c.WantGen("alias") {
+		for ki, k := range allKinds {
+			for si, shape := range aliasShapes {
+				pick := map[int]bool{}
+				if !c.Thorough() { // three of the sizes per kind and shape, one of them small
+					rs := c.Rng("aliassizes", ki*len(aliasShapes)+si)
+					pick[1+rs.Intn(4)] = true
+					for len(pick) < 3 {
+						pick[rs.Intn(len(aliasSizes))] = true
+					}
+				}
+				for ni, n := range aliasSizes {
+					cas := (ki*len(aliasShapes)+si)*len(aliasSizes) + ni
+					if !(c.Thorough() || pick[ni]) || !c.Want("alias", cas) {
+						continue
+					}
+					s := aliasHistory(c, t, "alias", cas, k, shape, n)
+					c.Count(fmt.Sprintf("alias|%s|%s|%d", k, shape, n), s.events > 3)
+					if cas == 0 {
+						c.Sample(map[string]interface{}{"gen": "alias", "case": cas, "type": k.String() + "List", "shape": shape, "n": n, "events": s.events, "first_calls": s.sig})
+					}
+				}
+			}
 		}
 	}
 
